@@ -229,6 +229,9 @@ def build_world(spec: dict) -> World:
         w.scheduler = R["TetriSchedGurobiScheduler"](release_taskgraphs=f["release_taskgraphs"], **kw)
     else:
         w.scheduler = R["TetriSchedCPLEXScheduler"](batching=bool(spec.get("batching", False)), **kw)
+    if spec.get("warmup"):
+        # warm-scheduler flavour: the same scheduler object has already been invoked once, on an unrelated world
+        _worlds.run_warmup(R, w.scheduler, spec["warmup"])
     return w
 
 
@@ -1100,7 +1103,9 @@ def run_case(spec: dict):
 
 
 def canonical_case(spec: dict) -> dict:
-    return {k: spec[k] for k in ("backend", "now", "pools", "graphs", "flags")}
+    c = {k: spec[k] for k in ("backend", "now", "pools", "graphs", "flags")}
+    c.update({k: spec[k] for k in ("scale", "warmup") if spec.get(k)})  # flavours (harness/planners/_worlds.py)
+    return c
 
 
 def second_pass(recs_cases, replies):
@@ -1701,7 +1706,31 @@ def mixed_corpus() -> list[dict]:
     ]
 
 
-P_DECL, P_MIXED = 0.4, 0.25
+def warm_corpus() -> list[dict]:
+    """Hand-written warm-scheduler worlds (both back-ends, derived plan-ahead): the scheduler object was invoked at
+    t=0 on an unrelated world whose greatest deadline is 4; the judged call at t=1 has to plan B and C (runtime 5,
+    deadline 12, one CPU) one after the other, which needs the slots up to 6 of ITS horizon 1..13."""
+    out = []
+    for backend in ("gurobi", "cplex"):
+        out.append(
+            {
+                "backend": backend,
+                "now": 1,
+                "pools": [{"name": "P0", "workers": [{"name": "W0", "res": [["CPU", 1]]}]}],
+                "graphs": [
+                    {"name": f"G{i}", "edges": [], "tasks": [
+                        {"name": n, "ts": 0, "state": "RELEASED", "strats": [{"batch": 1, "runtime": 5, "req": [["CPU", 1]]}], "deadline": 12, "release": 1}]}
+                    for i, n in enumerate(("B", "C"))
+                ],
+                "flags": {"enforce_deadlines": True, "retract": False, "release_taskgraphs": False, "lookahead": 0, "disc": 1, "plan_ahead": -1},
+                "uuid_seed": 31,
+                "warmup": {"now": 0, "cpu": 1, "tasks": [{"runtime": 4, "deadline": 4}]},
+            }
+        )
+    return out
+
+
+P_DECL, P_MIXED, P_WARM = 0.4, 0.25, 0.3
 
 
 def _count_flavours(chk, name, spec):
@@ -1711,6 +1740,8 @@ def _count_flavours(chk, name, spec):
         chk.count(f"{name}:flavour=declaration-order" + ("" if all(_worlds.is_topological_decl(g) for g in spec["graphs"]) else ",non-topological"))
     if spec.get("flavour"):
         chk.count(f"{name}:flavour={spec['flavour']}")
+    if spec.get("warmup"):
+        chk.count(f"{name}:flavour=warm-scheduler")
 
 
 def gen_specs(prop: str, rng, tier: str, widened=False) -> list[dict]:
@@ -1733,7 +1764,11 @@ def gen_specs(prop: str, rng, tier: str, widened=False) -> list[dict]:
             _worlds.shuffle_decl(spec, fr)
         if fr.random() < P_MIXED:
             _worlds.scale_mixed(spec, fr)
-    specs[n_corpus:n_corpus] = mixed_corpus()
+    wr = rng.sub(f"tetri/{prop}/{'w' if widened else 'n'}/warmup")
+    for spec in specs[n_corpus:]:
+        if wr.random() < P_WARM:
+            _worlds.gen_warmup(spec, wr)
+    specs[n_corpus:n_corpus] = mixed_corpus() + [s for s in warm_corpus() if not (prop == "C11" and s["backend"] != "gurobi")]
     if prop in ("C10", "C11"):
         # chain-B worlds in addition (10 %)
         for j in range(max(4, n // 10)):
